@@ -22,7 +22,7 @@ theorem DId.client_acc (s0 : Nat) : ∀ a ∈ clAcc s0, DId.Kept a := by
   all_goals (try (simp at hg; done))
   all_goals (repeat' split)
   all_goals (intro he hm hF)
-  all_goals (first | (cases hm; done) | (obtain ⟨k1, k2, k3, k4, k5, k6, k7, k8, k9, k10, k11, k12, k13⟩ := hU _ he hm))
+  all_goals (first | (cases hm; done) | (obtain ⟨k1, k2, k3, k4, k5, k6, k7, k8, k9, k10, k11, k12, k13, k14⟩ := hU _ he hm))
   all_goals (first | (obtain ⟨d1, d2, d3, d4⟩ := hL _ he hm))
   all_goals (first | (obtain ⟨i1, i2, i3, i3', i4, i4', i5, i6, i7⟩ := h _ he hm hF))
   all_goals (
